@@ -133,9 +133,9 @@ def Outcome.mapSt {σ τ : Type} (f : σ → τ) : Outcome σ → Outcome τ
   | .heartbeat st => .heartbeat (f st)
   | .deliver c p st => .deliver c p (f st)
 
-theorem frameStepWith_sim (hs : Sim R1 R2 f) (h : Bytes → Handled) (cfg : Cfg) (st : σ) :
-    Outcome.mapSt f (frameStepWith h R1 cfg st).out = (frameStepWith h R2 cfg (f st)).out ∧
-    (frameStepWith h R1 cfg st).alloc = (frameStepWith h R2 cfg (f st)).alloc := by
+theorem frameStepWith_sim (hs : Sim R1 R2 f) (h : Bytes → Handled) (da : Bytes → Nat) (cfg : Cfg) (st : σ) :
+    Outcome.mapSt f (frameStepWith h da R1 cfg st).out = (frameStepWith h da R2 cfg (f st)).out ∧
+    (frameStepWith h da R1 cfg st).alloc = (frameStepWith h da R2 cfg (f st)).alloc := by
   unfold frameStepWith
   rw [← readConn_sim hs cfg st]
   cases readConn R1 cfg st with
@@ -153,9 +153,27 @@ theorem runWith_sim (hs : Sim R1 R2 f) (h : Bytes → Handled) (cfg : Cfg) :
   | succ k ih =>
     intro st
     unfold runWith
-    have := (frameStepWith_sim hs h cfg st).1
+    have := (frameStepWith_sim hs h (fun c => c.length) cfg st).1
     rw [← this]
-    cases (frameStepWith h R1 cfg st).out with
+    cases (frameStepWith h (fun c => c.length) R1 cfg st).out with
+    | needMore => rfl
+    | err e => rfl
+    | panic s => rfl
+    | heartbeat st' => simp only [Outcome.mapSt]; rw [ih st']
+    | deliver c p st' => simp only [Outcome.mapSt]; rw [ih st']
+
+theorem runAllocWith_sim (hs : Sim R1 R2 f) (h : Bytes → Handled) (da : Bytes → Nat) (cfg : Cfg) :
+    ∀ (fuel : Nat) (st : σ), runAllocWith h da R1 cfg fuel st = runAllocWith h da R2 cfg fuel (f st) := by
+  intro fuel
+  induction fuel with
+  | zero => intro st; rfl
+  | succ k ih =>
+    intro st
+    unfold runAllocWith
+    have h1 := (frameStepWith_sim hs h da cfg st).1
+    have h2 := (frameStepWith_sim hs h da cfg st).2
+    rw [← h1, ← h2]
+    cases (frameStepWith h da R1 cfg st).out with
     | needMore => rfl
     | err e => rfl
     | panic s => rfl
@@ -223,5 +241,45 @@ theorem codeOf_unpad {d o : Bytes} (h : unpad d = some o) (h4 : 4 ≤ o.length) 
   have : 4 ≤ k := by rw [List.length_take] at h4; omega
   unfold codeOf
   rw [getD_take (by omega), getD_take (by omega), getD_take (by omega), getD_take (by omega)]
+
+theorem codeOf_take4 (d : Bytes) : codeOf (d.take 4) = codeOf d := by
+  unfold codeOf
+  rw [getD_take (by omega), getD_take (by omega), getD_take (by omega), getD_take (by omega)]
+
+theorem flatRead_some {n : Nat} {s g r : Bytes} (h : flatRead n s = some (g, r)) :
+    g.length = n ∧ s.length = n + r.length := by
+  unfold flatRead at h
+  split at h
+  · cases h
+  · cases h
+    rw [List.length_take, List.length_drop]; omega
+
+/-- on a flat stream a delivered content accounts for exactly the bytes it consumed -/
+theorem readConn_flat_content {cfg : Cfg} {s c rest : Bytes} {a : Nat}
+    (h : readConn flat cfg s = .content c rest a) :
+    s.length = 6 + c.length + rest.length ∧ a = 6 + c.length ∧ c.length ≤ cfg.maxLen := by
+  unfold readConn at h
+  cases h6 : flat.readFull 6 s with
+  | none => rw [h6] at h; cases h
+  | some q =>
+    obtain ⟨hd, s1⟩ := q
+    rw [h6] at h
+    simp only at h
+    split at h
+    · cases h
+    · split at h
+      · cases h
+      · split at h
+        · cases h
+        · rename_i hmax
+          cases hl : flat.readFull (be32 (hd.getD 2 0) (hd.getD 3 0) (hd.getD 4 0) (hd.getD 5 0)) s1 with
+          | none => rw [hl] at h; cases h
+          | some r =>
+            obtain ⟨c', s2⟩ := r
+            rw [hl] at h
+            cases h
+            have a1 := flatRead_some (show flatRead 6 s = some (hd, s1) from h6)
+            have a2 := flatRead_some (show flatRead _ s1 = some (c, rest) from hl)
+            omega
 
 end LemoProofs.FrameLemmas
